@@ -136,7 +136,7 @@ Definition sim_handles : list (N * (N * rkind)) := [
   (0x9003, (0x1003, RGeneral));
   (0x9101, (0x0001, RGeneral));
   (0x9102, (0x0001, RGeneral));
-  (0x9201, (0x1205, RGeneral));
+  (0x9201, (0x0001, RGeneral));
   (0x9205, (0x1205, RGeneral));
   (0x9206, (0x1206, RGeneral));
   (0x9207, (0x0001, RGeneral));
